@@ -267,7 +267,7 @@ func main() {
 	rr := hx.NewRand(77)
 	segs := []string{"/n=10", "/n=99", "/alg=q", "/alg=h", "/a=1", "/a=2", "/b=77", "/x", "/gomaxprocs=4", "/n=1", "/n=", "/nn=1"}
 	for i := 0; i < hx.N(1500, 30000); i++ {
-		base := hx.Pick(rr, []string{"Sort", "S", "", "Sort-8"})
+		base := hx.Pick(rr, []string{"Sort", "S", "", "Sort-8", "Benchmark", "BenchmarkS"})
 		pick := func() []byte {
 			n := []byte(base)
 			for j := 1 + rr.Intn(3); j > 0; j-- {
@@ -313,7 +313,9 @@ func main() {
 	}
 	// random longer names, biased to realistic shapes
 	words := []string{"Foo", "a", "a=1", "a=", "=", "gomaxprocs=4", "b=x-2", "0", "-7", "", "é", "a=b=c", "/",
-		"GOMAXPROCS=2", "Gomaxprocs=3", "gomaxprocs==5", ".name=x", "GOMAXPROCS"}
+		"GOMAXPROCS=2", "Gomaxprocs=3", "gomaxprocs==5", ".name=x", "GOMAXPROCS",
+		// names that themselves begin with the format's line prefix (func BenchmarkBenchmarkX, hand-made Results)
+		"Benchmark", "BenchmarkSuite", "Benchmarks", "Benchmark-8", "BenchmarkBenchmark", "benchmarkX", "Benchmark=1"}
 	n := hx.N(20000, 400000)
 	for i := 0; i < n; i++ {
 		var name []byte
